@@ -125,6 +125,9 @@ class Selection(Contract):
             yield {"kinds": kinds}
         yield {"kinds": ("free", "expr", "fixed", "nonneg", "bounded")}
         yield {"kinds": ("expr", "expr", "free", "free", "fixed")}
+        # non-negative parameters that also carry finite bounds (minimum below or above 1): both bounds go to the optimiser as logarithms
+        yield {"kinds": ("nonneg_bounded", "free", "nonneg_bounded")}
+        yield {"kinds": ("fixed", "nonneg_bounded", "expr", "nonneg")}
 
     def build(self, S, case):
         from glotaran.parameter import Parameter, Parameters
@@ -148,6 +151,15 @@ class Selection(Contract):
                 kw["non_negative"] = True
                 S.require(L.gt(v, 0), "non-negative value positive")
                 S.require(L.not_(L.eq(v, 1.0)), "not the guard value")
+            elif k == "nonneg_bounded":
+                kw["non_negative"] = True
+                lo, hi = S.real(f"lo_{i}"), S.real(f"hi_{i}")
+                S.require(L.gt(lo, 0), "minimum of a non-negative parameter positive")
+                S.require(L.le(lo, v), "value within bounds")
+                S.require(L.le(v, hi), "value within bounds")
+                for q in (v, lo, hi):
+                    S.require(L.not_(L.eq(q, 1.0)), "not the guard value")
+                kw["minimum"], kw["maximum"] = lo, hi
             elif k == "bounded":
                 lo, hi = S.real(f"lo_{i}"), S.real(f"hi_{i}")
                 S.require(L.le(lo, v), "value within bounds")
@@ -183,7 +195,7 @@ class Selection(Contract):
             return
         kinds = case["kinds"]
         pars, vals, new = inp["pars"], inp["vals"], inp["new"]
-        want = [f"g.{i+1}" for i, k in enumerate(kinds) if k in ("free", "nonneg", "bounded")]
+        want = [f"g.{i+1}" for i, k in enumerate(kinds) if k in ("free", "nonneg", "bounded", "nonneg_bounded")]
         yield "free_labels_are_varying_non_expression_parameters_in_declaration_order", list(out["labels"]) == want
         yield "all_labels_in_declaration_order", list(out["all_labels"]) == list(pars)
         yield "expression_forces_vary_false", all(pars[f"g.{i+1}"].vary is False for i, k in enumerate(kinds) if k == "expr")
@@ -193,7 +205,16 @@ class Selection(Contract):
         for j, lab in enumerate(want):
             k = kinds[int(lab.split(".")[1]) - 1]
             v = vals[lab]
-            if k == "nonneg":
+            if k == "nonneg_bounded":
+                if S.symbolic:
+                    pos.append(L.eq(out["values"][j], L.fn("log", v)))
+                    pos.append(L.eq(out["lower"][j], L.fn("log", pars[lab].minimum)))
+                    pos.append(L.eq(out["upper"][j], L.fn("log", pars[lab].maximum)))
+                else:
+                    import math
+
+                    pos.append(abs(float(out["lower"][j]) - math.log(float(pars[lab].minimum))) < 1e-9 and abs(float(out["upper"][j]) - math.log(float(pars[lab].maximum))) < 1e-9)
+            elif k == "nonneg":
                 if S.symbolic:
                     pos.append(L.eq(out["values"][j], L.fn("log", v)))
                 pos.append(isfloat(out["lower"][j]) and out["lower"][j] == -INF)
@@ -208,7 +229,7 @@ class Selection(Contract):
             val, vary, expr, mn, mx, nn = out["after"][lab]
             if k in ("free", "bounded"):
                 wr.append(L.eq(val, new[lab]))
-            elif k == "nonneg":
+            elif k in ("nonneg", "nonneg_bounded"):
                 if S.symbolic:
                     wr.append(L.eq(val, L.fn("exp", new[lab])))
             elif k == "fixed":
